@@ -52,7 +52,7 @@ func Catalogue(tier string) []core.System {
 		&RSystem{name: "rad-deny", NS: 1, T: 1, B: 1, NSes: 2, Deny: true, Auth0: true, Ops: []string{"cache", "auth", "adv"}, Advs: []int{1}},
 		&RSystem{name: "rad-acct", NS: 1, T: 1, B: 2, NRec: 3, Auth0: true, Ops: []string{"buf", "sync"}, Xs: []string{"ok", "fail", "fail1", "cancel1", "okcancel"}},
 		&RSystem{name: "rad-noauth", NS: 1, T: 1, B: 2, NRec: 2, Auth0: false, Ops: []string{"buf", "sync", "setauth"}, Xs: []string{"ok"}},
-		&RSystem{name: "rad-reauth", NS: 1, T: 5, B: 1, NSes: 3, Auth0: true, Ops: []string{"cache", "auth", "queue", "proc"}, Xs: allX},
+		&RSystem{name: "rad-reauth", NS: 1, T: 5, B: 1, NSes: 2, Auth0: true, Ops: []string{"cache", "auth", "queue", "proc"}, Xs: allX},
 	}
 	if tier == "thorough" {
 		l = append(l,
@@ -60,6 +60,7 @@ func Catalogue(tier string) []core.System {
 			&MSystem{name: "mon-prov-3", NP: 2, NH: 1, SLE: true, Provider: true, Us: [][2]int{{50, 50}, {85, 15}, {90, 10}, {96, 4}, {50, 0}}},
 			&RSystem{name: "rad-cache-3", NS: 2, T: 3, B: 1, NSes: 3, Auth0: true, Ops: []string{"cache", "get", "auth", "purge", "purgeexp", "adv"}, Advs: []int{1, 2}},
 			&RSystem{name: "rad-acct-4", NS: 1, T: 1, B: 3, NRec: 4, Auth0: true, Ops: []string{"buf", "sync", "setauth"}, Xs: []string{"ok", "fail", "fail1", "cancel1", "okcancel"}},
+			&RSystem{name: "rad-reauth-3", NS: 1, T: 5, B: 1, NSes: 3, Auth0: true, Ops: []string{"cache", "auth", "queue", "proc"}, Xs: allX},
 			&RSystem{name: "rad-reauth-4", NS: 2, T: 5, B: 1, NSes: 4, Auth0: true, Ops: []string{"cache", "auth", "queue", "proc", "setauth"}, Xs: allX},
 		)
 	}
